@@ -6,18 +6,20 @@ VARIABLE W
 Strs == {"cat", "Cat", "CAT", "cát", "cats", "dog", "xx"}
 N == [s \in Strs |-> CASE s \in {"cat", "Cat", "CAT", "cát"} -> "cat" [] OTHER -> s]
 Mk(i, p, l, fs, ss) == [id |-> i, lex |-> "L", pos |-> p, lemma |-> l, forms |-> fs, senses |-> ss]
-Pool == { Mk("w1", "n", "cat", <<"cats">>, << <<"w1-1", "s1">> >>),
-          Mk("w2", "n", "Cat", <<>>, << <<"w2-1", "s1">>, <<"w2-2", "s2">> >>),
-          Mk("w3", "v", "cát", <<"CAT">>, << <<"w3-1", "s3">> >>),
-          Mk("w4", "n", "dog", <<"cat">>, << <<"w4-1", "s2">> >>),
+Pool == { Mk("w1", "n", "cat", <<"cats">>, << <<"w1-1", "s1", "L">> >>),
+          Mk("w2", "n", "Cat", <<>>, << <<"w2-1", "s1", "L">>, <<"w2-2", "s2", "L">> >>),
+          Mk("w3", "v", "cát", <<"CAT">>, << <<"w3-1", "s3", "L">> >>),
+          Mk("w4", "n", "dog", <<"cat">>, << <<"w4-1", "s2", "L">> >>),
           Mk("w5", "v", "cats", <<>>, <<>>) }
 SynPos == [s \in {"s1", "s2", "s3"} |-> IF s = "s3" THEN "v" ELSE "n"]
+SynOwn == [s \in {"s1", "s2", "s3"} |-> "L"]
+Scope == {"L"}
 Kinds == {"words", "senses", "synsets"}
 Poses == {"~", "n", "v", "x"}
 Lems == { {}, {<<"n", {"cat"}>>, <<"v", {"cats", "cat"}>>}, {<<"~", {"Cat"}>>} }
 Init == W = {}
 Next == \E w \in Pool \ W : Cardinality(W) < MaxWords /\ W' = W \cup {w}
-F(k, q, p, lem, nrm, saf) == Find(k, N, W, SynPos, q, p, lem, nrm, saf)
+F(k, q, p, lem, nrm, saf) == Find(k, N, W, Scope, SynPos, SynOwn, q, p, lem, nrm, saf)
 
 \* without a lemmatizer an exactly stored (lemma) form is always found
 ExactAlwaysFound == \A w \in W, p \in {"~"}, nrm \in BOOLEAN, saf \in BOOLEAN :
@@ -42,7 +44,7 @@ ExactOnlyWithoutNormalizer == \A q \in Strs, p \in Poses, saf \in BOOLEAN :
 \* the query is normalised only if the first pass found nothing
 BackoffOnlyIfEmpty == \A q \in Strs, p \in Poses, lem \in Lems, saf \in BOOLEAN, k \in Kinds :
    LET cs == Cands(q, p, lem)
-       first == UNION {Pass(k, N, W, SynPos, c[1], c[2], TRUE, saf) : c \in cs} IN
+       first == UNION {Pass(k, N, W, Scope, SynPos, SynOwn, c[1], c[2], TRUE, saf) : c \in cs} IN
      first # {} => F(k, q, p, lem, TRUE, saf) = first
 \* search_all_forms off: only lemmas count
 LemmaOnly == \A q \in Strs, p \in Poses, nrm \in BOOLEAN :
